@@ -57,20 +57,32 @@ class InternalCompiler(Compiler):
             # 2.1 Compile the expression
             iret = self.compile_expr(qc, symp_exp, sym=sym)
 
-            # 2.2 Map iret qubit to the symbol
+            # 2.2 A result is never left on a recycled ancilla: the final uncomputing
+            # may have to replay what was computed there before
+            if (
+                returns is not None
+                and sym.name in returns.bitvec
+                and qc.was_released(iret)
+            ):
+                iret_anc = iret
+                iret = qc.add_qubit(sym.name)
+                qc.cx(iret_anc, iret)
+                qc.mark_ancilla(iret_anc)
+
+            # 2.3 Map iret qubit to the symbol
             self.expqmap[sym] = iret
             qc.map_qubit(sym, iret, promote=not is_temp)
 
-            # 2.3 Remove all the temp qubits
+            # 2.4 Remove all the temp qubits
             self.expqmap.remove(qc.uncompute())
 
-        # 3. Remove identities gates (ie: X - X)
-        qc.remove_identities()
-
-        # 4. Uncompute qubits
+        # 3. Uncompute qubits
         if uncompute and (returns is not None):
             keep = [qc[r] for r in filter(lambda r: r in qc, returns.bitvec)]
             qc.uncompute_all(keep=keep)
+
+        # 4. Remove identities gates (ie: X - X)
+        qc.remove_identities()
 
         return qc
 
